@@ -556,6 +556,17 @@ func TestVerif_C07Reply(t *testing.T) {
 	rep.Flag("repeats_per_request", repeats)
 	rep.Note("fixture: Epoch values with only epoch number, GSFA reader and an in-memory CAR reader; one linked-log record per address and epoch (multi-record chains are exercised by the gsfa harness)")
 	rep.Note("not covered here: block-time / memo / err members of the reply entries (their values do not depend on the order), epochs served through local CAR files or split pieces")
+	if replayKeys == nil {
+		vc07rSharedPart(rng, rep, cases, root, dummyRoot)
+	} else {
+		// a recorded failure of the shared part depends on the requests before it: the whole sequence is repeated
+		for _, k := range vc07rSharedReplays(vh.Replay()) {
+			if k {
+				vc07rSharedPart(rng, rep, cases, root, dummyRoot)
+				break
+			}
+		}
+	}
 	if err := cases.Write(); err != nil {
 		t.Fatal(err)
 	}
@@ -563,4 +574,452 @@ func TestVerif_C07Reply(t *testing.T) {
 	if err := rep.Write(); err != nil {
 		t.Fatal(err)
 	}
+}
+
+// ---------------------------------------------------------------- addresses that share transactions, one running server
+
+// vc07rSharedReplays: for each failure recorded in a replay file, whether it belongs to the shared part.
+func vc07rSharedReplays(path string) []bool {
+	var doc struct {
+		Failures []struct {
+			Replay struct {
+				Part string `json:"part"`
+			} `json:"replay"`
+		} `json:"failures"`
+	}
+	var out []bool
+	if raw, err := os.ReadFile(path); err == nil && json.Unmarshal(raw, &doc) == nil {
+		for _, f := range doc.Failures {
+			out = append(out, f.Replay.Part == "shared")
+		}
+	}
+	return out
+}
+
+type vc07rSharedReplay struct {
+	Part      string       `json:"part"` // "shared"
+	Group     int          `json:"group"`
+	Addr      int          `json:"address_in_group"`
+	History   []vc07rEntry `json:"history_newest_first"`
+	Limit     int          `json:"limit"`
+	Before    *int         `json:"before_sig,omitempty"`
+	Until     *int         `json:"until_sig,omitempty"`
+	SigsOnly  bool         `json:"gsfa_only_signatures"`
+	Request   string       `json:"request"`
+	Expected  []int        `json:"expected_signatures"`
+	Observed  []int        `json:"observed_signatures"`
+	Preceded  []string     `json:"preceded_by_on_the_same_server"`
+	FreshObs  []int        `json:"observed_on_a_freshly_started_server,omitempty"`
+	FreshSame bool         `json:"freshly_started_server_gives_expected"`
+}
+
+// vc07rSharedPart: the transactions of a group mention 1..k of the group's addresses (the gsfa indexer pushes a
+// transaction under each of its account keys), so one signature occurs in several histories. ONE MultiEpoch (its Epoch
+// values and their gsfa readers) serves every request, as a running server does; the requests of the addresses of a group
+// are interleaved: A is paged through (`before` = last signature of the previous page) and B is asked with `before` = the
+// end of each page that B's history holds, then B with every signature of A; afterwards all requests again in shuffled
+// order. Oracle per request: the reply is the slice of THAT address's newest-first history.
+func vc07rSharedPart(_ *vh.Rng, rep *vh.Report, cases *vh.CasesFile, root string, dummyRoot cid.Cid) {
+	rng := vh.NewRng(vh.Seed() + 7007) // its own stream: the same sequence of requests in a replay run
+	nGroups, rpt := 20, 3
+	if vh.Thorough() {
+		nGroups, rpt = 160, 6
+	}
+	type gaddr struct {
+		pk   solana.PublicKey
+		hist [3][]vc07rEntry // per epoch, newest first
+	}
+	type group struct {
+		no    int
+		addrs []*gaddr
+	}
+	type push struct {
+		off, size, slot uint64
+		pks             solana.PublicKeySlice
+	}
+	var groups []*group
+	sigToID := map[string]int{}
+	cars := make([]*vc07rMem, 3)
+	pushes := make([][]push, 3)
+	for i := range cars {
+		cars[i] = &vc07rMem{b: bytes.Repeat([]byte{0xCA}, 40+rng.Intn(30))}
+	}
+	fail := func(what string, err error) {
+		rep.Note("shared-transaction part skipped: %s: %v", what, err)
+	}
+	addrNo := 0
+	for g := 1; g <= nGroups; g++ {
+		k := rng.Pick(2, 2, 3)
+		grp := &group{no: g}
+		for j := 0; j < k; j++ {
+			addrNo++
+			a := &gaddr{}
+			binary.LittleEndian.PutUint32(a.pk[0:4], uint32(addrNo))
+			a.pk[4] = 0x5B
+			a.pk[6] = byte(rng.Intn(256))
+			a.pk[31] = 0x7C
+			grp.addrs = append(grp.addrs, a)
+		}
+		var n [3]int
+		for n[0]+n[1]+n[2] < 2 {
+			for i := range n {
+				n[i] = rng.Pick(0, 1, 2, 2, 3, 4)
+			}
+		}
+		forcedAll := rng.Intn(n[0] + n[1] + n[2])
+		pos := 0
+		for i := 2; i >= 0; i-- {
+			e := vc07rEpochs[i]
+			slot := e*slottools.EpochLen + uint64(rng.Pick(0, 1, 9))
+			asc := make([][]vc07rEntry, k)
+			for x := 0; x < n[i]; x++ {
+				pos++
+				ent := vc07rEntry{Sig: g*100 + pos, Slot: slot, Epoch: e}
+				slot += uint64(rng.Pick(0, 1, 3))
+				var who []int
+				switch c := rng.Intn(6); {
+				case pos-1 == forcedAll || c < 2:
+					for j := 0; j < k; j++ {
+						who = append(who, j)
+					}
+				case c < 4:
+					p := rng.Perm(k)
+					who = []int{p[0], p[1]}
+				default:
+					who = []int{rng.Intn(k)}
+				}
+				var pks solana.PublicKeySlice
+				for _, j := range who {
+					pks = append(pks, grp.addrs[j].pk)
+					asc[j] = append(asc[j], ent)
+				}
+				tx := &ipldbindcode.Transaction{
+					Kind:     0,
+					Data:     ipldbindcode.DataFrame{Kind: 6, Data: vc07rTxBytes(ent.Sig, pks[0])},
+					Metadata: ipldbindcode.DataFrame{Kind: 6, Data: []byte{}},
+					Slot:     int(ent.Slot),
+				}
+				data, err := tx.MarshalCBOR()
+				if err != nil {
+					fail("encoding a transaction", err)
+					return
+				}
+				mh, err := multihash.Sum(data, multihash.SHA2_256, -1)
+				if err != nil {
+					fail("hashing a transaction", err)
+					return
+				}
+				c := cid.NewCidV1(cid.DagCBOR, mh)
+				payload := append(append([]byte{}, c.Bytes()...), data...)
+				lenBuf := make([]byte, binary.MaxVarintLen64)
+				ln := binary.PutUvarint(lenBuf, uint64(len(payload)))
+				off := uint64(len(cars[i].b))
+				cars[i].b = append(cars[i].b, lenBuf[:ln]...)
+				cars[i].b = append(cars[i].b, payload...)
+				pushes[i] = append(pushes[i], push{off: off, size: uint64(ln + len(payload)), slot: ent.Slot, pks: pks})
+				sigToID[vc07rSig(ent.Sig).String()] = ent.Sig
+			}
+			for j := 0; j < k; j++ {
+				for x := len(asc[j]) - 1; x >= 0; x-- {
+					grp.addrs[j].hist[i] = append(grp.addrs[j].hist[i], asc[j][x])
+				}
+			}
+		}
+		groups = append(groups, grp)
+	}
+	dirs := make([]string, 3)
+	errs := make([]error, 3)
+	var wg sync.WaitGroup
+	for i := 0; i < 3; i++ {
+		i := i
+		e := vc07rEpochs[i]
+		dirs[i] = filepath.Join(root, fmt.Sprintf("shared-gsfa-%d", e))
+		tmp := filepath.Join(root, fmt.Sprintf("shared-tmp-%d", e))
+		if err := os.MkdirAll(tmp, 0o755); err != nil {
+			fail("scratch directory", err)
+			return
+		}
+		wg.Add(1)
+		go func() {
+			defer wg.Done()
+			defer func() {
+				if p := recover(); p != nil {
+					errs[i] = fmt.Errorf("panic: %v", p)
+				}
+			}()
+			w, err := gsfa.NewGsfaWriter(dirs[i], indexmeta.Meta{}, e, dummyRoot, indexes.NetworkMainnet, tmp)
+			if err != nil {
+				errs[i] = err
+				return
+			}
+			for _, p := range pushes[i] {
+				if err := w.Push(p.off, p.size, p.slot, p.pks, true, true, false); err != nil {
+					errs[i] = err
+					return
+				}
+			}
+			errs[i] = w.Close()
+		}()
+	}
+	wg.Wait()
+	for i, err := range errs {
+		if err != nil {
+			fail(fmt.Sprintf("GSFA index of epoch %d", vc07rEpochs[i]), err)
+			return
+		}
+	}
+	// a server: both reply flavours, each with its own Epoch values and gsfa readers, loaded once
+	var closers []func()
+	defer func() {
+		for _, c := range closers {
+			c()
+		}
+	}()
+	newServer := func(sigsOnly bool, order []int) (func(*fasthttp.RequestCtx), error) {
+		multi := NewMultiEpoch(&Options{GsfaOnlySignatures: sigsOnly, EpochSearchConcurrency: 2})
+		for _, i := range order {
+			r, err := gsfa.NewGsfaReader(dirs[i])
+			if err != nil {
+				return nil, err
+			}
+			closers = append(closers, func() { r.Close() })
+			if err := multi.AddEpoch(vc07rEpochs[i], &Epoch{epoch: vc07rEpochs[i], gsfaReader: r, remoteCarReader: cars[i]}); err != nil {
+				return nil, err
+			}
+		}
+		return newMultiEpochHandler(multi, nil), nil
+	}
+	handlers := map[bool]func(*fasthttp.RequestCtx){}
+	for _, so := range []bool{true, false} {
+		h, err := newServer(so, rng.Perm(3))
+		if err != nil {
+			fail("loading the epochs", err)
+			return
+		}
+		handlers[so] = h
+	}
+	flat := func(a *gaddr) []vc07rEntry {
+		var h []vc07rEntry
+		for i := 0; i < 3; i++ {
+			h = append(h, a.hist[i]...)
+		}
+		return h
+	}
+	has := func(h []vc07rEntry, s int) bool {
+		for _, x := range h {
+			if x.Sig == s {
+				return true
+			}
+		}
+		return false
+	}
+	type request struct {
+		g, j          int
+		limit         int // 0 = not given
+		before, until *int
+		sigsOnly      bool
+		coq           bool
+	}
+	send := func(h func(*fasthttp.RequestCtx), body string) (obs []int, problem string) {
+		out, panicked := vc07rCall(h, body)
+		if panicked {
+			return nil, "handler-panic: " + out
+		}
+		var resp struct {
+			Result []struct {
+				Signature string `json:"signature"`
+			} `json:"result"`
+			Error *struct {
+				Code    int    `json:"code"`
+				Message string `json:"message"`
+			} `json:"error"`
+		}
+		if err := json.Unmarshal([]byte(out), &resp); err != nil || resp.Error != nil {
+			return nil, "reply-error: " + out
+		}
+		for _, r := range resp.Result {
+			id, ok := sigToID[r.Signature]
+			if !ok {
+				id = -1
+			}
+			obs = append(obs, id)
+		}
+		return obs, ""
+	}
+	sameInts := func(a, b []int) bool {
+		if len(a) != len(b) {
+			return false
+		}
+		for i := range a {
+			if a[i] != b[i] {
+				return false
+			}
+		}
+		return true
+	}
+	var recent []string
+	named := map[string]bool{}
+	diagnosed := 0
+	do := func(q request) {
+		grp := groups[q.g]
+		a := grp.addrs[q.j]
+		h := flat(a)
+		var opts []string
+		if q.limit > 0 {
+			opts = append(opts, fmt.Sprintf(`"limit":%d`, q.limit))
+		}
+		if q.before != nil {
+			opts = append(opts, fmt.Sprintf(`"before":"%s"`, vc07rSig(*q.before)))
+		}
+		if q.until != nil {
+			opts = append(opts, fmt.Sprintf(`"until":"%s"`, vc07rSig(*q.until)))
+		}
+		body := fmt.Sprintf(`{"jsonrpc":"2.0","id":1,"method":"getSignaturesForAddress","params":["%s",{%s}]}`, a.pk, strings.Join(opts, ","))
+		effLimit := q.limit
+		if effLimit <= 0 || effLimit > 1000 {
+			effLimit = 1000
+		}
+		exp := vc07rSlice(h, effLimit, q.before, q.until)
+		var expSigs []int
+		expEpochs := map[uint64]bool{}
+		for _, x := range exp {
+			expSigs = append(expSigs, x.Sig)
+			expEpochs[x.Epoch] = true
+		}
+		key := fmt.Sprintf("shared g%d a%d l%d b%s u%s", grp.no, q.j, q.limit, vc07rCoqOpt(q.before), vc07rCoqOpt(q.until))
+		seen := map[string]bool{}
+		for k := 0; k < rpt; k++ {
+			obs, problem := send(handlers[q.sigsOnly], body)
+			rep.Case(key, len(expEpochs) >= 2)
+			rep.Count("shared-requests")
+			mk := func() *vc07rSharedReplay {
+				return &vc07rSharedReplay{Part: "shared", Group: grp.no, Addr: q.j, History: h, Limit: q.limit, Before: q.before, Until: q.until, SigsOnly: q.sigsOnly,
+					Request: body, Expected: expSigs, Observed: obs, Preceded: append([]string(nil), recent...)}
+			}
+			if problem != "" {
+				rep.Fail(strings.SplitN(problem, ":", 2)[0], "shared-transaction part: "+problem, mk())
+				break
+			}
+			if !sameInts(obs, expSigs) {
+				if diagnosed >= 20 {
+					rep.Count("shared-mismatch-not-diagnosed-further")
+					break
+				}
+				diagnosed++
+				sig := "reply-mismatch"
+				rp := mk()
+				// the same request to a server started for it alone
+				if fh, err := newServer(q.sigsOnly, []int{0, 1, 2}); err == nil {
+					fobs, fproblem := send(fh, body)
+					if fproblem == "" {
+						rp.FreshObs, rp.FreshSame = fobs, sameInts(fobs, expSigs)
+						if rp.FreshSame {
+							sig = "reply-depends-on-earlier-requests"
+						}
+					}
+				}
+				rep.Fail(sig, fmt.Sprintf("addresses sharing transactions, one running server: expected signatures %v, reply %v (a freshly started server gives the expected reply: %v); requests before: %v", expSigs, obs, rp.FreshSame, recent), rp)
+				break
+			}
+			ck := fmt.Sprint(obs)
+			if q.coq && !seen[ck] {
+				seen[ck] = true
+				name := fmt.Sprintf("rg%d_%d", grp.no, q.j)
+				if !named[name] {
+					named[name] = true
+					var eps []string
+					for i := 0; i < 3; i++ {
+						if a.hist[i] == nil {
+							eps = append(eps, fmt.Sprintf("(%d%%N, NotFound)", vc07rEpochs[i]))
+							continue
+						}
+						var es []string
+						for _, x := range a.hist[i] {
+							es = append(es, fmt.Sprintf("(%d, %d%%N)", x.Sig%100, x.Slot))
+						}
+						eps = append(eps, fmt.Sprintf("(%d%%N, Found [[%s]])", vc07rEpochs[i], strings.Join(es, "; ")))
+					}
+					cases.Preamble(fmt.Sprintf("Definition %s : list epoch := [%s].", name, strings.Join(eps, "; ")))
+				}
+				var ss []string
+				for _, id := range obs {
+					if id < 0 {
+						ss = append(ss, "98")
+					} else {
+						ss = append(ss, fmt.Sprint(id%100))
+					}
+				}
+				cases.Add(fmt.Sprintf("CReply %s (%d)%%Z %s %s [%s]", name, effLimit, vc07rCoqOpt(q.before), vc07rCoqOpt(q.until), strings.Join(ss, "; ")))
+			}
+		}
+		if len(recent) >= 10 {
+			recent = append(recent[:0], recent[1:]...)
+		}
+		recent = append(recent, key)
+	}
+	ip := func(v int) *int { return &v }
+	var sample []request
+	for gi, grp := range groups {
+		rep.Count(fmt.Sprintf("shared-group-addresses=%d", len(grp.addrs)))
+		var all []request
+		issue := func(q request) {
+			all = append(all, q)
+			do(q)
+		}
+		for ja, a := range grp.addrs {
+			hA := flat(a)
+			if len(hA) == 0 {
+				continue
+			}
+			for jb, b := range grp.addrs {
+				hB := flat(b)
+				common := false
+				for _, x := range hA {
+					common = common || has(hB, x.Sig)
+				}
+				if jb == ja || !common {
+					continue
+				}
+				rep.Count("shared-paging-pairs")
+				so := rng.Intn(4) != 0
+				for _, p := range []int{1, 2, len(hA) + 2} {
+					var before *int
+					for {
+						page := vc07rSlice(hA, p, before, nil)
+						issue(request{g: gi, j: ja, limit: p, before: before, sigsOnly: so, coq: rng.Intn(10) == 0})
+						if len(page) == 0 {
+							break
+						}
+						last := page[len(page)-1].Sig
+						if has(hB, last) {
+							rep.Count("shared-page-ends-on-shared-transaction")
+							issue(request{g: gi, j: jb, limit: 1, before: ip(last), sigsOnly: so, coq: rng.Intn(4) == 0})
+							var u *int
+							if rng.Bool() {
+								u = ip(hB[rng.Intn(len(hB))].Sig)
+							}
+							issue(request{g: gi, j: jb, before: ip(last), until: u, sigsOnly: so, coq: rng.Intn(4) == 0})
+						}
+						before = ip(last)
+					}
+				}
+				for _, x := range hA { // own signatures select a suffix of B's history, foreign ones nothing
+					issue(request{g: gi, j: jb, limit: rng.Pick(0, 1, 2), before: ip(x.Sig), sigsOnly: so, coq: rng.Intn(10) == 0})
+				}
+			}
+		}
+		for _, y := range rng.Perm(len(all)) {
+			q := all[y]
+			q.coq = false
+			do(q)
+			rep.Count("shared-requests-repeated-in-shuffled-order")
+			if rng.Intn(4) == 0 {
+				sample = append(sample, q)
+			}
+		}
+	}
+	for _, y := range rng.Perm(len(sample)) {
+		do(sample[y])
+	}
+	rep.Note("shared-transaction part: one MultiEpoch (Epoch values and gsfa readers loaded once) answers every request; a differing reply is repeated on a freshly started server to tell state kept across requests from a wrong walk")
 }
